@@ -56,6 +56,18 @@ def helper5(x, y, c, d):
     return x & y
 
 
+def helper8(sig, val):
+    # executes a statement and returns a compile-time constant
+    sig <<= val
+    return True
+
+
+def helper9(flag, v):
+    flag ^= True
+    v @= v + 1
+    return 1 > 0
+
+
 def helper6(acc, p, q, c0, c1):
     # the if-body falls through, a later branch returns, code follows the statement
     if c0:
@@ -279,6 +291,15 @@ CORE = [
     ["self.o2 <<= helper6(y, self.b, x, self.d, self.c)", "x @= y + 1"],
     ["self.o1 <<= helper7(self.o2, self.a, self.b, self.c, self.d)"],
     ["t = helper7(self.p, self.a, x, self.d, self.c)", "x @= t", "self.o1 <<= t"],
+    # helper calls with side effects inside a test that folds to a constant: the side effects are part of the program
+    ["if helper8(self.o1, self.a):", "    self.o2 <<= self.b"],
+    ["if helper9(self.ob, x):", "    pass", "self.o1 <<= x"],
+    ["x @= self.a", "if not helper8(self.o2, x):", "    self.o1 <<= 1", "else:", "    self.o1 <<= 2"],
+    ["self.o1 <<= 3 if helper8(self.o2, self.b) else 4"],
+    # match: guards and repeated patterns follow Python (first matching case whose guard holds) -- or are rejected
+    ['match self.sel:', '    case "01" if self.c:', '        self.o1 <<= self.a', '    case "01":', '        self.o1 <<= self.b', '    case _:', '        self.o1 <<= 1'],
+    ['match self.sel:', '    case "10" if self.d:', '        self.o2 <<= self.a', '    case _:', '        self.o2 <<= self.b'],
+    ['match self.sel:', '    case "00":', '        x @= self.a', '    case "00":', '        x @= self.b', '    case "11":', '        x @= 3', 'self.o1 <<= x'],
     # pushed signals return to their default in every activation that does not push them, noreset or not
     ["if self.c:", "    self.pn ^= True", "self.o1 <<= self.a"],
     ["if self.c:", "    self.pn ^= self.d", "else:", "    self.ob ^= True"],
